@@ -110,6 +110,7 @@ Definition spec_event (t : tables) (ev : hop * hout) : bool :=
   | (HNs (NGetPrefix e), HONs OErr) => true
   | (HNs NFetch, HONs (OCtx m)) => forallb (fun pe => maps_to t (fst pe) (snd pe)) m
   | (HNs (NRead _), HONs _) => true
+  | (HNs NRestart, HONs ONone) => true
   | (HBatch _ _ ents, HOBatch oc ids) | (HCtxTxn _ _ ents, HOBatch oc ids) =>
     ok_outcome oc && Nat.eqb (length ids) (length ents) &&
     match oc with
@@ -161,6 +162,12 @@ Definition spec_ok (c : tcase) : bool :=
      | Some t => forallb (spec_event t) evs
      | None => true
      end.
+
+(** [spec_ok] judges every event against the LAST dump, so a case is well formed when its op
+    sequence ends with a dump (every generated case does; an event after the last dump would be
+    judged against tables that cannot know it yet) *)
+Definition ends_dump (ops : list hop) : bool :=
+  match rev ops with HDump :: _ => true | _ => false end.
 
 (** the part of the spec that does not refer to the final tables: every op answered, no request
     panicked or hit a discarded transaction, every context read shows what was fetched *)
